@@ -1071,6 +1071,169 @@ Proof.
   - rewrite app_length. pose proof (tail_toks_len t). lia.
 Qed.
 
+Lemma flat_map_len : forall (A : Type) (pr : A -> list tok) (xs : list A),
+  length xs <= length (flat_map (fun x => TNewLine :: TIndent :: pr x) xs).
+Proof.
+  intros A pr xs. induction xs as [|x t IH]; cbn [flat_map length]; [lia|].
+  rewrite app_length. cbn [length]. lia.
+Qed.
+
+(** ** DEFGATE *)
+
+Definition spec_lines {A} (pr : A -> list tok) (xs : list A) : list tok :=
+  flat_map (fun x => TNewLine :: TIndent :: pr x) xs.
+
+Lemma p_lines_rt : forall (A : Type) (pe : list tok -> res A) (pr : A -> list tok) (good : A -> Prop),
+  (forall x more, good x -> line_end more -> pe (pr x ++ more) = Ok x more) ->
+  forall xs, Forall good xs -> forall x0 f rest, good x0 -> block_end rest -> length xs < f ->
+    p_lines pe f (TIndent :: pr x0 ++ spec_lines pr xs ++ rest) = Ok (x0 :: xs) rest.
+Proof.
+  intros A pe pr good Hpe xs Hxs. induction Hxs as [|x1 t Hx1 Ht IH]; intros x0 f rest Hx0 Hbe Hf;
+    cbn [length] in Hf; (destruct f as [|f]; [lia|]).
+  - cbn [spec_lines flat_map app p_lines].
+    rewrite (Hpe x0 rest Hx0 (block_end_line_end rest Hbe)). cbn [bind].
+    destruct rest as [|t0 [|t1 rest]]; try reflexivity.
+    + destruct t0; reflexivity.
+    + destruct t0; try reflexivity. destruct t1; try reflexivity. contradiction.
+  - cbn [spec_lines flat_map]. fold (spec_lines pr t). cbn [p_lines].
+    rewrite <- app_assoc. cbn [app].
+    rewrite (Hpe x0 (TNewLine :: TIndent :: pr x1 ++ spec_lines pr t ++ rest) Hx0 I). cbn [bind].
+    rewrite (IH x1 f rest Hx1 Hbe) by lia. reflexivity.
+Qed.
+
+Lemma p_spec_lines_rt : forall (A : Type) (pe : list tok -> res A) (pr : A -> list tok) (good : A -> Prop),
+  (forall x more, good x -> line_end more -> pe (pr x ++ more) = Ok x more) ->
+  forall xs rest, nonempty xs = true -> Forall good xs -> block_end rest ->
+    p_spec_lines pe (spec_lines pr xs ++ rest) = Ok xs rest.
+Proof.
+  intros A pe pr good Hpe [|x0 t] rest Hne Hxs Hbe; [discriminate|].
+  inversion Hxs as [|? ? Hx0 Ht]; subst.
+  cbn [spec_lines flat_map]. fold (spec_lines pr t). cbn [app p_spec_lines]. rewrite <- app_assoc.
+  apply (p_lines_rt A pe pr good Hpe t Ht x0 _ rest Hx0 Hbe).
+  cbn [length]. rewrite !app_length. pose proof (flat_map_len A pr t) as Hl.
+  unfold spec_lines. lia.
+Qed.
+
+Lemma skip_indents_print_e : forall e rest, skip_indents (print_e e ++ rest) = print_e e ++ rest.
+Proof.
+  intros e rest. pose proof (print_e_head e) as H.
+  destruct (print_e e) as [|t0 pe]; [contradiction|]. destruct t0; try contradiction; reflexivity.
+Qed.
+
+Lemma p_row_tail_rt : forall l, forallb wf_expr l = true ->
+  forall f rest, line_end rest -> length l < f ->
+    p_row_tail f (tail_toks l ++ rest) = Ok l rest.
+Proof.
+  induction l as [|e l IH]; intros Hwf f rest Hle Hf; cbn [length] in Hf; (destruct f as [|f]; [lia|]).
+  - cbn [tail_toks flat_map app]. le_split Hle; reflexivity.
+  - cbn [forallb] in Hwf. apply andb_true_iff in Hwf as [He Hl].
+    cbn [tail_toks flat_map]. fold (tail_toks l). cbn [app p_row_tail].
+    rewrite <- app_assoc. rewrite skip_indents_print_e.
+    assert (Hs' : stop (tail_toks l ++ rest))
+      by (destruct l; [apply line_end_stop; exact Hle | cbn; repeat split]).
+    rewrite (p_expr_rt e _ He Hs').
+    rewrite (IH Hl f rest Hle) by lia. reflexivity.
+Qed.
+
+Lemma p_row_rt : forall row more, forallb wf_expr row = true -> line_end more ->
+  p_row (sep_exprs row ++ more) = Ok row more.
+Proof.
+  intros [|e t] more Hwf Hle.
+  - cbn [sep_exprs app]. unfold p_row. rewrite (p_expr_line_end more Hle). reflexivity.
+  - cbn [forallb] in Hwf. apply andb_true_iff in Hwf as [He Ht].
+    rewrite sep_exprs_cons. rewrite <- app_assoc. unfold p_row.
+    assert (Hs' : stop (tail_toks t ++ more))
+      by (destruct t; [apply line_end_stop; exact Hle | cbn; repeat split]).
+    rewrite (p_expr_rt e _ He Hs'). rewrite (p_row_tail_rt t Ht _ more Hle).
+    + reflexivity.
+    + rewrite app_length. pose proof (tail_toks_len t). lia.
+Qed.
+
+Lemma p_idents_rt : forall l rest, match rest with TId _ :: _ => False | _ => True end ->
+  p_idents (map TId l ++ rest) = (l, rest).
+Proof.
+  induction l as [|x l IH]; intros rest H; cbn [map app].
+  - destruct rest as [|[] rest]; try contradiction; reflexivity.
+  - cbn [p_idents]. rewrite (IH rest H). reflexivity.
+Qed.
+
+Definition pauli_toks (t : ident * expr * list ident) : list tok :=
+  let '(w, e, args) := t in TId w :: TLParen :: print_e e ++ TRParen :: map TId args.
+
+Lemma p_pauli_term_rt : forall t more,
+  wf_expr (snd (fst t)) && nonempty (snd t) = true -> line_end more ->
+  p_pauli_term (pauli_toks t ++ more) = Ok t more.
+Proof.
+  intros [[w e] args] more Hwf Hle. cbn [fst snd] in Hwf. apply andb_true_iff in Hwf as [He Ha].
+  cbn [pauli_toks app p_pauli_term]. rewrite <- app_assoc. cbn [app].
+  rewrite (p_expr_rt e _ He (stop_rparen _)).
+  rewrite p_idents_rt by (le_split Hle; exact I).
+  destruct args; [discriminate|reflexivity].
+Qed.
+
+Lemma p_gate_rt : forall g more, is_gate g && wf_instr g = true -> line_end more ->
+  p_gate (print_instr g ++ more) = Ok g more.
+Proof.
+  intros g more H Hle. apply andb_true_iff in H as [Hg Hwf].
+  destruct g; try discriminate Hg. cbn [wf_instr] in Hwf. cbn [print_instr].
+  rewrite <- !app_assoc. cbn [app]. unfold p_gate.
+  rewrite p_modifiers_rt by exact I. rewrite <- app_assoc. rewrite p_params_rt.
+  - cbn [bind]. rewrite (p_qubits_rt qs more (line_end_qstop more Hle)). reflexivity.
+  - exact Hwf.
+  - intros _. destruct qs as [|[] qs]; cbn [map app print_qubit]; try exact I. le_split Hle; exact I.
+Qed.
+
+Definition ints_tail (l : list N) : list tok := flat_map (fun n => [TComma; TInt n]) l.
+
+Lemma sep_ints_cons : forall x t, sep_ints (x :: t) = TInt x :: ints_tail t.
+Proof.
+  intros x t; revert x; induction t as [|y t IH]; intros x; [reflexivity|].
+  change (sep_ints (x :: y :: t)) with (TInt x :: TComma :: sep_ints (y :: t)). rewrite IH. reflexivity.
+Qed.
+
+Lemma p_ints_tail_rt : forall l rest, match rest with TComma :: _ => False | _ => True end ->
+  p_ints_tail (ints_tail l ++ rest) = (l, rest).
+Proof.
+  induction l as [|x l IH]; intros rest H.
+  - cbn [ints_tail flat_map app]. destruct rest as [|[] rest]; try contradiction; reflexivity.
+  - cbn [ints_tail flat_map app p_ints_tail]. fold (ints_tail l). rewrite (IH rest H). reflexivity.
+Qed.
+
+Lemma forallb_Forall : forall (A : Type) (f : A -> bool) l, forallb f l = true -> Forall (fun x => f x = true) l.
+Proof. intros A f l H. apply Forall_forall. intros x Hx. exact (proj1 (forallb_forall f l) H x Hx). Qed.
+
+Lemma defgate_rt : forall name ps sp rest, wf_spec sp = true -> block_end rest ->
+  p_defgate (TId name :: print_var_params ps ++ map TId (spec_args sp)
+               ++ TAs :: spec_kind sp :: TColon :: print_spec sp ++ rest)
+  = Ok (DefGate name ps sp) rest.
+Proof.
+  intros name ps sp rest Hwf Hbe. cbn [p_defgate].
+  rewrite p_var_params_rt by (intros _; destruct (spec_args sp); exact I).
+  rewrite p_idents_rt by exact I.
+  destruct sp as [rows|perm|args terms|args gates]; cbn [spec_kind spec_args print_spec wf_spec p_colon bind] in *.
+  - apply andb_true_iff in Hwf as [Hne Hr].
+    change (flat_map (fun row => TNewLine :: TIndent :: sep_exprs row) rows) with (spec_lines sep_exprs rows).
+    rewrite (p_spec_lines_rt _ p_row sep_exprs (fun row => forallb wf_expr row = true) p_row_rt rows rest Hne
+               (forallb_Forall _ _ rows Hr) Hbe).
+    reflexivity.
+  - destruct perm as [|n t]; [discriminate|]. rewrite sep_ints_cons. cbn [app p_permutation].
+    rewrite p_ints_tail_rt by (destruct rest as [|[] rest]; cbn in Hbe; try contradiction; exact I).
+    reflexivity.
+  - apply andb_true_iff in Hwf as [Hne Ht].
+    assert (Heq : flat_map print_pauli_term terms = spec_lines pauli_toks terms).
+    { clear. induction terms as [|[[w e] a] t IH]; [reflexivity|]. cbn [flat_map spec_lines]. fold (spec_lines pauli_toks t).
+      rewrite IH. reflexivity. }
+    rewrite Heq.
+    rewrite (p_spec_lines_rt _ p_pauli_term pauli_toks _ p_pauli_term_rt terms rest Hne
+               (forallb_Forall _ _ terms Ht) Hbe).
+    reflexivity.
+  - apply andb_true_iff in Hwf as [Hne Hg].
+    change (print_body gates) with (spec_lines print_instr gates).
+    rewrite (p_spec_lines_rt _ p_gate print_instr _ p_gate_rt gates rest Hne
+               (forallb_Forall _ _ gates Hg) Hbe).
+    reflexivity.
+Qed.
+
 (** a printed plain instruction never starts like a definition *)
 Lemma p_item_plain : forall i rest, wf_instr i = true ->
   p_item Repaired (print_instr i ++ rest)
@@ -1087,11 +1250,13 @@ Ltac norm_app := repeat (rewrite <- app_assoc; cbn [app]).
 Theorem item_rt : forall it rest, wf_item it = true -> block_end rest ->
   p_item Repaired (print_core it ++ rest) = Ok it rest.
 Proof.
-  intros it rest Hwf Hbe. destruct it as [i|mods name ps qs body|name q target body|name ps qvars body|f attrs|name ext ps entries];
+  intros it rest Hwf Hbe. destruct it as [i|gname gps sp|mods name ps qs body|name q target body|name ps qvars body|f attrs|name ext ps entries];
     cbn [wf_item] in Hwf.
   - (* Plain *)
     cbn [print_core]. rewrite (p_item_plain i rest Hwf).
     rewrite (instr_rt i rest Hwf (block_end_line_end rest Hbe)). reflexivity.
+  - (* DefGate *)
+    cbn [print_core app p_item]. norm_app. apply defgate_rt; assumption.
   - (* DefCal *)
     apply andb_true_iff in Hwf as [Hwf Hb]. apply andb_true_iff in Hwf as [Hps Hne].
     cbn [print_core app].
@@ -1139,7 +1304,7 @@ Qed.
 
 Lemma print_core_head : forall it, wf_item it = true -> forall rest, starts_instr (print_core it ++ rest).
 Proof.
-  intros [i| | | | |] Hwf rest; try exact I. apply print_instr_head; exact Hwf.
+  intros [i| | | | | |] Hwf rest; try exact I. apply print_instr_head; exact Hwf.
 Qed.
 
 Lemma items_loop_step : forall f it rest, wf_item it = true -> block_end rest ->
